@@ -49,7 +49,7 @@ HasNames(e) == Defs(e) # {} \/ DefsL(e) # {} \/ HasOvr(e)
 \* ---- can match without consuming (calls are never considered nullable: the proviso of C16)
 RECURSIVE Nullable(_)
 RECURSIVE NullSeq(_, _)
-Nullable(e) == CASE e.op \in {"opt", "star", "void", "cut", "and", "not", "const", "oconst", "oalert", "constbad", "emptyclosure", "eof", "eol", "fail"} -> TRUE
+Nullable(e) == CASE e.op \in {"opt", "star", "void", "cut", "and", "not", "const", "oconst", "oalert", "constbad", "emptyclosure", "eof", "eol", "fail", "zwpat"} -> TRUE     \* zwpat: a zero-width pattern (\b, a lookahead)
                  [] e.op = "pat" -> e.min = 0 /\ (e.cls2 = <<>> \/ e.min2 = 0)
                  [] e.op = "opat" -> e.nul
                  [] e.op = "join" -> ~e.plus \/ Nullable(e.e)      \* s%{e}+ == e {s ~ e}: one empty element is enough, the separator never matters
